@@ -64,6 +64,7 @@ that does not exist is `NoSuchBucket`, not `NoSuchKey`; 0f31b61 delete_objects o
 0096ef4 complete_multipart_upload validates the part list and the part files before it changes anything: a failed complete leaves the upload in place, a part that was never uploaded is `InvalidPart`;
 4609ab3 operations on an upload that does not exist answer `NoSuchUpload`;
 205d9a8 upload_part and upload_part_copy refuse a part number outside 1..10000;
+814bd03 upload_part_copy refuses a copy source range that is not `bytes=first-last` inside the source;
 47e9b00 complete_multipart_upload replaces the metadata and the checksum record of the object it replaces;
 9bdb75f complete_multipart_upload into a bucket that no longer exists is `NoSuchBucket` and does not recreate the bucket;
 8faafe7 copy_object gives the destination the metadata and the checksum record of the source, or none;
@@ -245,6 +246,37 @@ theorem C18_fixed_part_number_validated :
       [none, none, some .InvalidArgument, some .InvalidArgument, some .InvalidArgument, some .InvalidArgument,
        some .InvalidArgument, none, some .InvalidArgument, some .InvalidArgument, some .InvalidArgument, none, none, none,
        none] := by decide
+
+/-- was fs:part-copy-range-unchecked (the witness history of `corpus/fs.txt` first: `bytes=0-20` of a 2-byte object): a range
+    that reaches beyond the end of the source, an open-ended range (`bytes=1-`), the suffix form (`bytes=-1`), a signed
+    position (`bytes=+0-1`) and a range without unit are `InvalidArgument` on both sides and leave no part behind;
+    `bytes=0-1` and `bytes=1-1` are copied -/
+theorem C18_fixed_part_copy_range :
+    Same [.createBucket bka, .putObject bka kA [7, 8] none {} none, .createMultipartUpload alice bka kB none,
+      .uploadPartCopy alice bka kB (some 1) 1 bka kA (some [98, 121, 116, 101, 115, 61, 48, 45, 50, 48]),
+      .uploadPartCopy alice bka kB (some 1) 1 bka kA (some [98, 121, 116, 101, 115, 61, 49, 45]),
+      .uploadPartCopy alice bka kB (some 1) 1 bka kA (some [98, 121, 116, 101, 115, 61, 45, 49]),
+      .uploadPartCopy alice bka kB (some 1) 1 bka kA (some [98, 121, 116, 101, 115, 61, 43, 48, 45, 49]),
+      .uploadPartCopy alice bka kB (some 1) 1 bka kA (some [48, 45, 49]),
+      .uploadPartCopy alice bka kB (some 1) 1 bka kA (some [98, 121, 116, 101, 115, 61, 50, 45, 50]),
+      .listParts alice bka kB (some 1),
+      .uploadPartCopy alice bka kB (some 1) 1 bka kA (some [98, 121, 116, 101, 115, 61, 48, 45, 49]),
+      .uploadPartCopy alice bka kB (some 1) 2 bka kA (some [98, 121, 116, 101, 115, 61, 49, 45, 49]),
+      .listParts alice bka kB (some 1)] ∧
+    (run H0 0 {} [.createBucket bka, .putObject bka kA [7, 8] none {} none, .createMultipartUpload alice bka kB none,
+      .uploadPartCopy alice bka kB (some 1) 1 bka kA (some [98, 121, 116, 101, 115, 61, 48, 45, 50, 48]),
+      .uploadPartCopy alice bka kB (some 1) 1 bka kA (some [98, 121, 116, 101, 115, 61, 49, 45]),
+      .uploadPartCopy alice bka kB (some 1) 1 bka kA (some [98, 121, 116, 101, 115, 61, 45, 49]),
+      .uploadPartCopy alice bka kB (some 1) 1 bka kA (some [98, 121, 116, 101, 115, 61, 43, 48, 45, 49]),
+      .uploadPartCopy alice bka kB (some 1) 1 bka kA (some [48, 45, 49]),
+      .uploadPartCopy alice bka kB (some 1) 1 bka kA (some [98, 121, 116, 101, 115, 61, 50, 45, 50]),
+      .listParts alice bka kB (some 1),
+      .uploadPartCopy alice bka kB (some 1) 1 bka kA (some [98, 121, 116, 101, 115, 61, 48, 45, 49]),
+      .uploadPartCopy alice bka kB (some 1) 2 bka kA (some [98, 121, 116, 101, 115, 61, 49, 45, 49]),
+      .listParts alice bka kB (some 1)]).2.drop 3 =
+      [.err .InvalidArgument, .err .InvalidArgument, .err .InvalidArgument, .err .InvalidArgument, .err .InvalidArgument,
+       .err .InvalidArgument, .parts [], .part (some (etagOf H0 [7, 8])), .part (some (etagOf H0 [8])),
+       .parts [(1, 2), (2, 1)]] := by decide
 
 /-- was fs:stale-metadata-after-complete and fs:stale-checksum-after-complete (the witness histories of `corpus/fs.txt`): a
     multipart upload created without metadata, completed over an object that has metadata / a recorded checksum: the object
